@@ -255,6 +255,21 @@ Theorem C18_interference_other_keys_untouched : forall e clk fs o s0 k,
 Proof. intros e clk fs o s0 k H1 H2 H3 H4. exact (cleani_frame e clk fs o s0 k H1 H2 H3 H4). Qed.
 Print Assumptions C18_interference_other_keys_untouched.
 
+(** and for the assets of a live certificate: if X.crt holds a certificate that is not expired for the
+    grace period at any reading of the clock, and no other actor writes or deletes X.crt, the asset
+    in question (X.crt, X.key or X.json) or a key above them, then after the cleaning the asset has
+    the node it had before -- whatever the others do meanwhile to other certificates (in the same
+    issuer folder or not), to staples, to accounts, at whatever moments *)
+Theorem C18_interference_live_assets_untouched : forall e clk fs o s0 base suf v c,
+  site_assetb (base ++ spec_ext_crt) = true -> In suf asset_exts ->
+  lookup s0 (base ++ spec_ext_crt) = Some (File v c) ->
+  (forall i, spec_expired (clk i) (grace o) c = false) ->
+  (forall i f, In (i, f) fs ->
+     covers (fkey f) (base ++ spec_ext_crt) = false /\ covers (fkey f) (base ++ suf) = false) ->
+  lookup (sto (snd (cleani e fs o clk s0))) (base ++ suf) = lookup s0 (base ++ suf).
+Proof. exact cleani_live_frame. Qed.
+Print Assumptions C18_interference_live_assets_untouched.
+
 (** without foreign operations the interfered cleaning is the model *)
 Theorem C18_no_interference_is_model : forall e o clk s0, cleani e [] o clk s0 = clean e o clk s0.
 Proof. exact cleani_nil. Qed.
@@ -509,6 +524,23 @@ Example ex_frame_hyps :
   touches k (FPut ex_renewed (File 77 (crt (T + 90 * day)))) = false /\
   lookup ex_fs_store k = Some (File 13 plain).
 Proof. vm_compute. repeat split; try reflexivity. discriminate. Qed.
+(** hypotheses of C18_interference_live_assets_untouched: a live certificate next to the dying one,
+    the other actor renewing the dying one in the window; the live key file is where it was *)
+Definition ex_fs_store2 : store :=
+  ex_fs_store ++
+  [ (s2k "certificates/iss/live.example", Dir);
+    (s2k "certificates/iss/live.example/live.example.crt", File 30 (crt (T + 30 * day)));
+    (s2k "certificates/iss/live.example/live.example.key", File 31 plain) ].
+Example ex_live_frame_hyps :
+  let base := s2k "certificates/iss/live.example/live.example" in
+  let f := FPut ex_renewed (File 77 (crt (T + 90 * day))) in
+  site_assetb (base ++ spec_ext_crt) = true /\
+  lookup ex_fs_store2 (base ++ spec_ext_crt) = Some (File 30 (crt (T + 30 * day))) /\
+  spec_expired T (grace ex_opts0) (crt (T + 30 * day)) = false /\
+  covers (fkey f) (base ++ spec_ext_crt) = false /\ covers (fkey f) (base ++ spec_ext_key) = false /\
+  lookup (sto (snd (cleani ex_env [(10%nat, f)] ex_opts0 (at_ T) ex_fs_store2))) (base ++ spec_ext_key)
+    = Some (File 31 plain).
+Proof. vm_compute. repeat split; reflexivity. Qed.
 Example ex_foreign_writer_calls :
   map (fun ev => (opk_code (ev_kind ev), ev_ok ev))
       (rev (lg (snd (cleani ex_env [(10%nat, FPut ex_renewed (File 77 (crt (T + 90 * day))))] ex_opts0 (at_ T) ex_fs_store))))
